@@ -480,7 +480,7 @@ pub fn run_batch<C: Check>(c: Arc<C>, cfg: BatchCfg) -> i32 {
                                 o.hists.insert(hh);
                             }
                             let vs = c.check(&scn, &out, &mut o.stats);
-                            if c.nontrivial(&scn, &out) && o.nontrivial.len() < 2_000_000 {
+                            if c.nontrivial(&scn, &out) && o.hists.len() < 2_000_000 {
                                 o.nontrivial.insert(hh);
                             }
                             if o.samples.len() < 2 && (idx % 7 == 3 || total < 8) {
